@@ -858,6 +858,8 @@ class Interp(object):
             new = _kernel.Slot(_kernel.COUNTER[0], tuple(g.var for g in self.generic), list(self.path.conds))
         elif self.generic and isinstance(t, ast.Name) and (isinstance(cur, Poison) or hasattr(cur, 'seq')):
             new = self.generic[-1].carried(self, t.id, s, rhs, fr)
+        elif hasattr(cur, 'sym_augassign'):
+            new = cur.sym_augassign(self, s.op.__class__.__name__, rhs, s)
         elif hasattr(cur, 'oid') and hasattr(cur, 'term'):
             # numpy in-place update of an array object: same object identity, new value
             new = self.binop(s.op, cur, rhs, s, fr)
